@@ -219,6 +219,8 @@ def random_case(ctx, rng, d, k):
         me = cnt[0]
         pays = [(rng.choice(["#app", "#rad", "cache://x", "p", "#app.bin", "długi"]) + rng.choice(["", "", "1", "2"]),
                  edged(envgen.blob(rng.choice([0, 1, 16, 300]), me * 10 + i), k + me + i)) for i in range(rng.choice([0, 1, 2, 2]))]
+        if k % 7 == 3 and pays:
+            pays.append((pays[0][0] + "\n", envgen.blob(5, me)))   # a legal name: the first one plus a trailing newline
         pays = list({n: (n, b) for n, b in pays}.values())
         deps = []
         if depth < 3:
@@ -227,8 +229,10 @@ def random_case(ctx, rng, d, k):
         return make_env(ctx, d, rng, 1000 * k + me, pays, deps)
 
     root = mk(0)
-    omit = rng.choice([None, "nothing-matches", ".*", "#app.*", r".*\d", "#dep0|p"])
-    dep = rng.choice([None, "nothing-matches", ".*", "#dep.*", "#dep0", "#dep.*|env.*"])
+    # patterns select by FULL match: alternations whose branches are proper prefixes / suffixes of other names present, and a name
+    # that differs from a matching one only by a trailing newline, tell a full match from an anchored search
+    omit = rng.choice([None, "nothing-matches", ".*", "#app.*", r".*\d", "#dep0|p", "#app|#rad", "p|#app.bin", "#rad|cache://x"])
+    dep = rng.choice([None, "nothing-matches", ".*", "#dep.*", "#dep0", "#dep.*|env.*", "#dep0|env", "#dep|#dep1"])
     return root, omit, dep
 
 
